@@ -56,6 +56,7 @@ def payload():
         st.one_of(
             st.builds(lambda s: {"k": "text", "s": s}, st.one_of(st.sampled_from(["a", "b", "ab", "ba", "abc", "", "x<y"]), st.text(alphabet="ab<", max_size=4), st.text(alphabet=CONFUSABLE, min_size=1, max_size=3))),
             st.sampled_from([{"k": "html", "s": "<meta name=a>"}, {"k": "tag", "name": "title", "ws": True, "attrs": [], "kids": [{"k": "text", "s": "T"}]}]),
+            st.builds(lambda nm, t, av: {"k": "tag", "name": nm, "ws": True, "attrs": [["title", av]] if av else [], "kids": [{"k": "text", "s": t}]}, st.sampled_from(["noscript", "title", "style"]), st.sampled_from(["x<y", "a&b", "<img src=x>", "plain"]), st.sampled_from(["", "", "q<r"])),
         ),
         min_size=1,
         max_size=3,
@@ -263,6 +264,10 @@ def twin(p, mode):
                 s = s.replace("&", "&amp;").replace("<", "&lt;").replace(">", "&gt;")
             n = {"k": "html", "s": s}
             done = True
+        elif not done and n["k"] == "tag" and n["name"] != "style" and any(k["k"] == "text" for k in n["kids"]):
+            # the text leaf sits inside an element: the two payloads differ only in str vs HTML() one level down
+            n = dict(n, kids=twin(n["kids"], mode))
+            done = True
         out.append(n)
     return out
 
@@ -344,6 +349,10 @@ def _names_body(case, note):
     doc = h.HTMLDocument(h.Tag("div", hp, h.Tag("span", hq)), h.head_content(*[build(x) for x in p]), inner).render()
     doc["dependencies"] = [d for d in doc["dependencies"] if d.name != "inner"]
     check(doc["html"].count("https://cdn/i/i.js") == 1, "a dependency that is also carried inside a head_content payload is written more or less than once", doc["html"].count("https://cdn/i/i.js"))
+    if case.get("confuse") == "plus-dep" and not case["same"]:
+        # the payload that carries the inner dependency comes first, the same dependency is also given at top level
+        d3 = h.HTMLDocument(h.head_content(*[build(x) for x in q]), h.Tag("p", build(INVISIBLE["plus-dep"][0]))).render()["html"]
+        check(d3.count("https://cdn/i/i.js") == 1, "a dependency carried inside the first head_content payload and also given in the body is not written exactly once", d3.count("https://cdn/i/i.js"))
     head_html = doc["html"][doc["html"].index("<head>") : doc["html"].rindex("</head>")]
     for rr in (rp, rq):
         if rr and "\n" not in rr:
